@@ -13,12 +13,13 @@
       == end
 -/
 import SfModel.BlockFile
+import SfModel.AdpcmReader
 import Driver.Util
 open Sf Sf.Block
 
 namespace Driver.Block
 
-inductive Codec | paf24 (ch : Nat) (big : Bool) | sds (bw sr : Nat) | dpcm (wide : Bool) | vox
+inductive Codec | paf24 (ch : Nat) (big : Bool) | sds (bw sr : Nat) | dpcm (wide : Bool) | vox | adpcm (ms : Bool) (ch ba spb : Nat)
 deriving Inhabited
 
 inductive RS
@@ -38,7 +39,7 @@ structure DS where
   rs : RS := .none
   sticky : Bool := false                   -- psf->error left by a failed sf_seek (a zero-length read returns before it is cleared)
 
-def Codec.ch : Codec → Nat | .paf24 ch _ => ch | _ => 1
+def Codec.ch : Codec → Nat | .paf24 ch _ => ch | .adpcm _ ch _ _ => ch | _ => 1
 
 def fillA5 (ty : Ty) (n : Nat) : String := String.join (List.replicate (n * ty.bits / 8) "a5")
 
@@ -49,6 +50,9 @@ def openRead (ds : DS) (bytes : List Byte) : DS × String :=
     ({ ds with rs := .blk (RHandle.open r r.frames) }, s!"frames={r.frames}")
   | .sds _ _ =>
     let r := Sds.reader bytes
+    ({ ds with rs := .blk (RHandle.open r r.frames) }, s!"frames={r.frames}")
+  | .adpcm ms ch ba spb =>
+    let r := if ms then msReader ch ba spb bytes else imaWavReader ch ba spb bytes
     ({ ds with rs := .blk (RHandle.open r r.frames) }, s!"frames={r.frames}")
   | .dpcm wide =>
     let h := DpcmR.open wide bytes
@@ -68,6 +72,8 @@ def runLine (ds : DS) (line : String) : DS × Option String :=
       else if kind == "sds" then .sds (kvNat rest "bw" 16) (kvNat rest "sr" 8000)
       else if kind == "dpcm8" then .dpcm false
       else if kind == "dpcm16" then .dpcm true
+      else if kind == "imawav" then .adpcm false (kvNat rest "ch" 1) (kvNat rest "ba" 256) (kvNat rest "spb" 505)
+      else if kind == "mswav" then .adpcm true (kvNat rest "ch" 1) (kvNat rest "ba" 256) (kvNat rest "spb" 500)
       else .vox
     ({ codec := codec, conv := conv }, none)
   | ["w", tyS, unit, nS, hex] =>
@@ -80,8 +86,9 @@ def runLine (ds : DS) (line : String) : DS × Option String :=
       let vs := (parseItems ty hex).take items
       let ret (cnt : Nat) : String := s!"ret={if unit == "f" then cnt / ch else cnt} err=0"
       match ds.codec with
-      | .paf24 _ _ => ({ ds with calls := (Paf24.chunkOf ty, vs.map (Paf24.ofCaller ds.conv ty)) :: ds.calls }, some (ret items))
+      | .paf24 _ _ => ({ ds with calls := (Paf24.chunkOf ch ty, vs.map (Paf24.ofCaller ds.conv ty)) :: ds.calls }, some (ret items))
       | .sds bw _ => ({ ds with calls := (Sds.chunkOf ty, vs.map (Sds.ofCaller bw ds.conv ty)) :: ds.calls }, some (ret items))
+      | .adpcm _ _ _ _ => (ds, some "bad-op")
       | .dpcm wide =>
         let (l, bs) := Dpcm.write wide ds.conv ty ds.last16 vs
         ({ ds with last16 := l, wbytes := bs :: ds.wbytes }, some (ret items))
@@ -121,8 +128,12 @@ def runLine (ds : DS) (line : String) : DS × Option String :=
         let (chunk, toC) : Nat × (Int → Int) :=
           match ds.codec with
           | .sds _ _ => (Sds.chunkOf ty, Sds.toCaller (h.r.spb |> fun spb => if spb == 60 then 8 else if spb == 40 then 16 else 24) ds.conv ty)
-          | _ => (Paf24.chunkOf ty, Paf24.toCaller ds.conv ty)
-        let (h', d, cnt) := h.read chunk items
+          | _ => (Paf24.chunkOf ch ty, Paf24.toCaller ds.conv ty)
+        let (h', d, cnt) :=
+          match ds.codec with
+          | .adpcm ms _ _ _ => h.readBrk (Oki.chunkOf ty) (!ms) items
+          | _ => h.read chunk items
+        let toC := match ds.codec with | .adpcm _ _ _ _ => Oki.toCaller ds.conv ty | _ => toC
         ({ ds with rs := .blk h' }, some (shw cnt (showItems ty (d.map toC) ++ fillA5 ty (items - d.length))))
       | .dpcm h =>
         let (h', vs?, cnt) := h.read ds.conv ty items
